@@ -86,7 +86,7 @@ pub enum Line {
     Update(u64, PatchC),
     Remove(u64),
     SaveExt(u64),
-    /// compact index 0 (B-tree `a`) / 1 (BM25 `t`) — exercised on the real code only
+    /// compact index 0 (B-tree `a`) / 1 (BM25 `t`); the model is told whether the index flushed itself
     Compact(u64),
     /// from the next reopen on, the open callback creates (1) / removes (0) a B-tree index on `n` — real code only
     WantIx(bool),
@@ -122,6 +122,10 @@ impl Line {
     }
     /// the Lean model has no counterpart of this line
     pub fn unmodelled(&self) -> bool {
+        matches!(self, Line::WantIx(_))
+    }
+    /// the case runs with tiny index buckets, so that buckets split and compaction really merges
+    pub fn wants_small_buckets(&self) -> bool {
         matches!(self, Line::Compact(_) | Line::WantIx(_))
     }
     pub fn tag(&self) -> &'static str {
